@@ -1,6 +1,7 @@
 //! vfront: checks of the asn1rs front end (tokenizer, parser, resolver, model conversions, code generators).
 mod c07;
 mod c13;
+mod c15;
 pub mod front;
 
 fn main() {
@@ -10,6 +11,7 @@ fn main() {
     let code = match ctx.prop.as_str() {
         "C07" => c07::run(ctx),
         "C13" => c13::run(ctx),
+        "C15" => c15::run(ctx),
         other => {
             eprintln!("vfront does not serve {other}");
             2
